@@ -75,9 +75,16 @@ RECIPES.update({
     'multi_channel_point2_ctor7': dict(unit='drivers', name='multi_channel_point2', cls='multi_channel_point2', self='multi_channel_point2', ctor=True, sel='std::size_t'),
     'multi_channel_point2_weight': dict(unit='drivers', name='weight', cls='multi_channel_point2', self='multi_channel_point2', opts=dict(_ACC_OPTS, mutable_self=True)),
     'multi_channel_point_ctor4': dict(unit='drivers', name='multi_channel_point', cls='multi_channel_point', self='multi_channel_point', ctor=True, sel='std::size_t'),
+    'multi_channel_point_channel': dict(unit='drivers', name='channel', cls='multi_channel_point', self='multi_channel_point'),
+    'multi_channel_point_coordinates': dict(unit='drivers', name='coordinates', cls='multi_channel_point', self='multi_channel_point'),
+    'mc_point_point': dict(unit='drivers', name='point', cls='mc_point', self='mc_point'),
+    'accumulator_nodist_invoke_mc': dict(unit='drivers', name='invoke', cls='accumulator', cls_targs=['double', '0'], sel='multi_channel_point2', self='accumulator_nodist', opts=_ACC_OPTS),
+    'multi_channel_integrand_map_dimensions': dict(unit='drivers', name='map_dimensions', cls='multi_channel_integrand', self='multi_channel_integrand'),
+    'multi_channel_integrand_map': dict(unit='drivers', name='map', cls='multi_channel_integrand', self='multi_channel_integrand'),
+    'multi_channel_result_ctor3': dict(unit='drivers', name='multi_channel_result', cls='multi_channel_result', self='multi_channel_result', ctor=True, sel='plain_result'),
     'plain_iteration': dict(unit='drivers', name='plain_iteration', opts=_IT_OPTS),
     'vegas_iteration': dict(unit='drivers', name='vegas_iteration', opts=_IT_OPTS),
-    'multi_channel_iteration': dict(unit='drivers', name='multi_channel_iteration', opts=_IT_OPTS),
+    'multi_channel_iteration': dict(unit='drivers', name='multi_channel_iteration', opts=dict(_ACC_OPTS, free_calls={'make_accumulator': _h_make_accumulator}, rename={'accumulator_nodist_invoke': 'accumulator_nodist_invoke_mc'})),
 })
 
 # ---- fragments: single expressions inside the MPI drivers -----------------------------------
@@ -92,7 +99,7 @@ for _d in ('mpi_plain', 'mpi_vegas', 'mpi_multi_channel'):
 
 # ---- B1 jobs ------------------------------------------------------------------------------------
 _GHOSTS = ('size_t vp_invocations, vp_weight_calls, vp_acc_calls; T vp_last_f, vp_last_w, vp_last_acc; '
-           'T vp_w_s0, vp_w_s1, vp_w_s2; size_t vp_w_nz, vp_w_fc; size_t vp_draws; T vp_last_u; size_t vp_g_nz, vp_g_fc, vp_g_exp; T vp_g_weight, vp_g_slot, vp_last_ret;')
+           'T vp_w_s0, vp_w_s1, vp_w_s2; size_t vp_w_nz, vp_w_fc; size_t vp_draws; T vp_last_u; size_t vp_g_nz, vp_g_fc, vp_g_exp; T vp_g_weight, vp_g_slot, vp_last_ret; size_t vp_g_nnz;')
 _ST_RES = [dict(cls='mc_point'), dict(cls='distribution_parameters', vec=True), dict(cls='mc_result', vec=True), dict(cls='distribution_result', vec=True),
            dict(cls='plain_result'), dict(cls='accumulator', cls_targs=['double', '0'], cname='accumulator_nodist'),
            dict(cname='vpinst_Fn', opaque=True), dict(unit='drivers', cls='integrand', cname='integrand')]
@@ -102,6 +109,10 @@ _ST_ACC = [dict(cls='mc_point'), dict(cls='accumulator', cls_targs=['double', '0
 _ST_DIST = [dict(cls='mc_point'), dict(cls='distribution_parameters', vec=True),
             dict(cls='accumulator', cls_targs=['double', '1'], cname='accumulator_dist'), dict(cls='projector'),
             dict(cls='integrand', cname='integrand', opaque=True)]
+_MAPGHOSTS = (' size_t vp_map_calls, vp_coord_calls, vp_dens_calls; int vp_map_action; size_t vp_map_channel; '
+              'const void *vp_map_rn, *vp_map_coords, *vp_map_enabled, *vp_map_dens; T vp_map_ret; T vp_g_total; int vp_phase; size_t vp_c_channel; const void *vp_c_rn, *vp_c_coords, *vp_c_enabled, *vp_c_dens; const void *vp_sel_src; _Bool vp_g_total_ok; T vp_g_uk;')
+_ST_MC = [dict(cls='mc_point'), dict(cname='vpinst_Map', opaque=True), dict(unit='drivers', cls='multi_channel_point'),
+          dict(unit='drivers', cls='multi_channel_point2')]
 _T_USER = 'user integrand and virtual point.weight() are contract stubs returning any value of T (NaN, +-inf, +-0 included)'
 
 JOBS = [
@@ -147,7 +158,7 @@ JOBS = [
          trusted=['libstdc++ std::partial_sum behaves like the reference left fold in vp/prelude/algo.h ([partial.sum])']),
     dict(name='discrete_ctor', functions=['discrete_distribution_ctor2'], entry='h_discrete_distribution_ctor2', enforce='discrete_distribution_ctor2',
          replace=['vp_partial_sum', 'vp_accumulate'], af=['discrete_distribution_ctor2'], structs=[dict(unit='drivers', cls='discrete_distribution')],
-         late_preludes=['algo.h'], globals='_Bool vp_g_total_ok;', defines=['VP_NMAX=1048576'], props=['C09', 'C17'], thorough_reals=['float'],
+         late_preludes=['algo.h'], globals='_Bool vp_g_total_ok; const void *vp_sel_src;', defines=['VP_NMAX=1048576'], props=['C09', 'C17'], thorough_reals=['float'],
          trusted=['L-mono-div: IEEE division by a fixed positive divisor is monotone in the dividend (two-division comparison, undecided by the back ends)']),
     dict(name='discrete_call', functions=['discrete_distribution_call'], entry='h_discrete_distribution_call', enforce='discrete_distribution_call',
          replace=['vp_lower_bound', 'vp_upper_bound'], structs=[dict(unit='drivers', cls='discrete_distribution')],
@@ -156,7 +167,33 @@ JOBS = [
     dict(name='discrete_select', functions=['discrete_distribution_ctor2', 'discrete_distribution_call'], specs=['discrete_distribution_ctor2', 'discrete_distribution_call', 'discrete_select'],
          harness_sections=['discrete_select'], entry='h_discrete_select', enforce=None, replace=['discrete_distribution_ctor2', 'discrete_distribution_call'],
          structs=[dict(unit='drivers', cls='discrete_distribution')], late_preludes=['stubs.h', 'algo.h'],
-         globals='size_t vp_draws; T vp_last_u; _Bool vp_g_total_ok;', defines=['VP_NMAX=1048576'], props=['C09', 'C17'], loop_contracts=False),
+         globals='size_t vp_draws; T vp_last_u; _Bool vp_g_total_ok; const void *vp_sel_src;', defines=['VP_NMAX=1048576'], props=['C09', 'C17'], loop_contracts=False),
+    dict(name='mc_point2_weight', functions=['multi_channel_point2_weight', 'multi_channel_point_channel', 'multi_channel_point_coordinates', 'mc_point_point'],
+         entry='h_multi_channel_point2_weight', enforce='multi_channel_point2_weight', af=['multi_channel_point2_weight'],
+         structs=_ST_MC, preludes=['opaque.h'], late_preludes=['stubs.h'], globals=_GHOSTS + _MAPGHOSTS, defines=['VP_NMAX=1048576', 'VP_MC_PROTOCOL'],
+         props=['C17', 'C01'], thorough_reals=['float'], trusted=['the channel map is user code: contract stub that may write the coordinate/density buffers and returns any value']),
+    dict(name='invoke_mc', functions=['accumulator_nodist_invoke_mc', 'accumulate', 'multi_channel_point2_weight', 'multi_channel_point_channel', 'multi_channel_point_coordinates', 'mc_point_point'],
+         entry='h_accumulator_nodist_invoke_mc', enforce='accumulator_nodist_invoke_mc', replace=['accumulate', 'multi_channel_point2_weight'],
+         af=['accumulator_nodist_invoke_mc', 'multi_channel_point2_weight'],
+         structs=_ST_MC + [dict(cls='accumulator', cls_targs=['double', '0'], cname='accumulator_nodist'), dict(cname='multi_channel_integrand', opaque=True)],
+         preludes=['opaque.h'], late_preludes=['stubs.h'], globals=_GHOSTS + _MAPGHOSTS, defines=['VP_NMAX=1048576', 'VP_MC_PROTOCOL'],
+         props=['C17', 'C02', 'C06', 'C01'], trusted=[_T_USER]),
+    dict(name='multi_channel_iteration', functions=['multi_channel_iteration', 'accumulator_nodist_invoke_mc', 'multi_channel_point2_weight', 'multi_channel_point2_ctor7', 'multi_channel_point_ctor4',
+                                                     'mc_point_ctor2', 'multi_channel_point_channel', 'multi_channel_point_coordinates', 'mc_point_point',
+                                                     'multi_channel_integrand_map_dimensions', 'multi_channel_integrand_map', 'multi_channel_result_ctor3',
+                                                     'discrete_distribution_ctor2', 'discrete_distribution_call',
+                                                     'accumulator_nodist_ctor1', 'integrand_dimensions', 'integrand_parameters', 'accumulator_nodist_result', 'accumulate', 'plain_result_ctor6', 'mc_result_ctor5'],
+         entry='h_multi_channel_iteration', enforce='multi_channel_iteration',
+         replace=['accumulator_nodist_invoke_mc', 'multi_channel_point2_weight', 'discrete_distribution_ctor2', 'discrete_distribution_call', 'accumulator_nodist_result'],
+         af=['multi_channel_iteration', 'accumulator_nodist_invoke_mc', 'multi_channel_point2_weight', 'discrete_distribution_ctor2'], split='always', split_workers=14, solvers=['cvc5', 'cadical'],
+         structs=[dict(cls='mc_point'), dict(cls='distribution_parameters', vec=True), dict(cls='mc_result', vec=True), dict(cls='distribution_result', vec=True),
+                  dict(cls='plain_result'), dict(cls='accumulator', cls_targs=['double', '0'], cname='accumulator_nodist'),
+                  dict(cname='vpinst_Fn', opaque=True), dict(unit='drivers', cls='integrand', cname='integrand'), dict(cname='vpinst_Map', opaque=True),
+                  dict(unit='drivers', cls='multi_channel_integrand'), dict(unit='drivers', cls='multi_channel_point'), dict(unit='drivers', cls='multi_channel_point2'),
+                  dict(unit='drivers', cls='multi_channel_result'), dict(unit='drivers', cls='discrete_distribution')],
+         preludes=['opaque.h'], late_preludes=['stubs.h', 'algo.h'], globals=_GHOSTS + _MAPGHOSTS,
+         defines=['VP_DIMSMAX=1024', 'VP_NMAX=1048576', 'VP_CALLSMAX=1099511627776', 'VP_MC_PROTOCOL'], props=['C02', 'C10', 'C17', 'C06', 'C19', 'C09', 'C01'],
+         trusted=[_T_USER, 'the channel map is user code (contract stub)', 'std::generate_canonical: assumed contract']),
     dict(name='refine_weights', functions=['multi_channel_refine_weights'], entry='h_multi_channel_refine_weights',
          enforce='multi_channel_refine_weights', replace=['vp_pow'], real='double', defines=['VP_NMAX=4096'],
          props=[]),
